@@ -32,7 +32,7 @@ func fail(n ast.Node, format string, a ...any) {
 // ---- symbolic values ----
 
 type sliceVal struct {
-	isInp bool     // a sub-slice of inp: [lo, hi) ; whole inp: lo=0, hi=-1
+	isInp  bool // a sub-slice of inp: [lo, hi) ; whole inp: lo=0, hi=-1
 	lo, hi int
 	lit    []string // []byte{…} literal: element expressions
 }
